@@ -176,3 +176,75 @@ Proof.
     symmetry. apply firstn_app_exact. reflexivity.
 Qed.
 End Main.
+
+(* ---------- the theorems ---------- *)
+Definition built (summer : list N -> N) (ty : N) (content : kmap) (bs : list N) : Prop :=
+  exists p, spec_parse bs = Some p /\
+    p_version p = 3 /\ p_ty p = ty /\ p_len p = len content /\ p_content p = content /\
+    p_checksum p = Some (summer (firstn (length bs - 4) bs)) /\
+    wf_fst_b bs = true.
+
+Theorem build_ops_correct_proof :
+  codec_statement -> compile_total_statement ->
+  forall (summer : list N -> N) (ty rows cols : N) (ops : list op),
+    calls_ok ops -> Forall op_ok ops ->
+    ty < U64 -> (forall l, summer l < 4294967296) -> size_ok_ops ops ->
+    exists bs, build_ops summer ty rows cols ops = Ok bs /\ built summer ty (spec_content None ops []) bs.
+Proof.
+  intros Hcodec Htotal summer ty rows cols ops Hcalls Hops Hty Hsum Hsize.
+  set (G := 1 + key_bytes (map op_key ops)).
+  destruct (init_inv ty rows cols G (key_bytes (map op_key ops) + 0)) as (Hi0 & Hl0).
+  { unfold G. lia. } { exact Hsize. }
+  destruct (run_extend_ok Hcodec Htotal ty ops G 0 [] [] _ Hi0 Hl0 Hops Hcalls) as (E & acc & b & Hrun & Hinv & Hrev).
+  change (b_last (new_builder ty rows cols)) with (@None key) in Hrev.
+  destruct (b_finish_ok Hcodec Htotal ty summer G E acc b Hinv Hty Hsum) as
+    (bs & p & Hfin & Hparse & P1 & P2 & P3 & P4 & P5).
+  exists bs. split.
+  - unfold build_ops. rewrite Hrun. exact Hfin.
+  - rewrite Hrev in P4. exists p. splits; auto.
+    + rewrite P3. rewrite <- Hrev. unfold len. rewrite rev_length. reflexivity.
+    + unfold wf_fst_b. rewrite Hparse, P4.
+      rewrite P3. rewrite <- Hrev at 1. replace (len acc =? len (rev acc)) with true.
+      2:{ symmetry. apply N.eqb_eq. unfold len. rewrite rev_length. reflexivity. }
+      rewrite (spec_content_sorted ops Hcalls), (spec_content_vals_b ops Hops). reflexivity.
+Qed.
+
+Theorem build_map_correct_proof :
+  codec_statement -> compile_total_statement ->
+  forall (summer : list N -> N) (ty rows cols : N) (kvs : kmap),
+    kmap_ok kvs = true ->
+    Forall (fun kv => Forall (fun b => b < 256) (fst kv) /\ snd kv < U64) kvs ->
+    ty < U64 -> (forall l, summer l < 4294967296) -> size_ok kvs ->
+    exists bs, build_map summer ty rows cols kvs = Ok bs /\ built summer ty kvs bs.
+Proof.
+  intros Hcodec Htotal summer ty rows cols kvs Hk Hb Hty Hsum Hsize.
+  set (ops := map (fun '(k, v) => OpInsert k v) kvs).
+  destruct (build_ops_correct_proof Hcodec Htotal summer ty rows cols ops) as (bs & Hbs & Hbuilt); auto.
+  - apply calls_ok_map. exact Hk.
+  - unfold ops. apply Forall_map. eapply Forall_impl; [|exact Hb]. intros [k v] H. exact H.
+  - unfold size_ok_ops, size_ok in *. unfold ops. rewrite map_map.
+    replace (map (fun x => op_key (let '(k, v) := x in OpInsert k v)) kvs) with (keys_of kvs); [exact Hsize|].
+    unfold keys_of. apply map_ext. intros [k v]. reflexivity.
+  - exists bs. split; [exact Hbs|]. unfold ops in Hbuilt. rewrite (spec_content_map kvs Hk) in Hbuilt. exact Hbuilt.
+Qed.
+
+Theorem build_set_correct_proof :
+  codec_statement -> compile_total_statement ->
+  forall (summer : list N -> N) (ty rows cols : N) (ks : list key),
+    sorted_weak ks = true ->
+    Forall (Forall (fun b => b < 256)) ks ->
+    ty < U64 -> (forall l, summer l < 4294967296) -> size_ok_keys ks ->
+    exists bs, build_set summer ty rows cols ks = Ok bs /\
+               built summer ty (map (fun k => (k, 0)) (dedup ks)) bs.
+Proof.
+  intros Hcodec Htotal summer ty rows cols ks Hk Hb Hty Hsum Hsize.
+  destruct (build_ops_correct_proof Hcodec Htotal summer ty rows cols (map OpAdd ks)) as (bs & Hbs & Hbuilt); auto.
+  - apply calls_ok_set. exact Hk.
+  - apply Forall_map. eapply Forall_impl; [|exact Hb]. intros k H. split; [exact H|]. cbn. unfold U64. lia.
+  - unfold size_ok_ops. rewrite map_map. cbn [op_key]. rewrite map_id. exact Hsize.
+  - exists bs. split; [exact Hbs|]. rewrite (spec_content_set ks Hk) in Hbuilt. exact Hbuilt.
+Qed.
+
+Print Assumptions build_ops_correct_proof.
+Print Assumptions build_map_correct_proof.
+Print Assumptions build_set_correct_proof.
